@@ -69,6 +69,18 @@ CHECKS = {
               "model tied to the code on a malformed stream comparing (type, class_name, field_name / missing / unknown); oracle: "
               "isinstance JSONWizardError, str(e) returns, independent path-based attribution for scalar positions"),
         technique='Lean 4 proof over a hand model + generated lattice + differential correspondence', ref='4 C14'),
+    'C06': dict(
+        text=("Lean theorems about the dump-side cache state machine (per-class key cache + dumper attributes): the first use of a "
+              "freshly defined family shows the specification, repeating a dump never changes it, operations on disjoint families in "
+              "between do not matter (all by induction over arbitrary operation lists); the machine reproduces the recorded leak and is "
+              "tied to the code by fingerprint correspondence on forked histories; oracle: every position of a history re-run alone in a "
+              "pristine forked child"),
+        technique='Lean 4 proof over a hand state machine + forked-history correspondence + replay oracle', ref='4 C06'),
+    'C07': dict(
+        text=("Lean theorems: frame lemma and non-interference (C07_disjoint: any operations on other families leave a disjoint family's "
+              "dump unchanged — induction over operation lists), witness of the shared-nested leak; same machine/correspondence as C06; "
+              "oracle: behaviour of G with F defined/configured/exercised == behaviour of G alone (forked children), all orders"),
+        technique='Lean 4 proof over a hand state machine + forked-history correspondence + isolation oracle', ref='4 C07'),
     'C08': dict(
         text=("Lean theorems about the model of string_conv / object_path (casing round trips for canonical snake names, "
               "tokenizer facts), model tied to the code by exhaustive small-alphabet correspondence plus end-to-end alias/path checks"),
